@@ -142,11 +142,6 @@ func TestC20(t *testing.T) {
 						if c01Excluded(e.Name, pool[i], pool[j], pool[k]) {
 							continue
 						}
-						// triples on which the order itself is known to be inconsistent are not claimed
-						if cls := known.Match(known.Case{Property: "C01", Check: "laws", Eco: e.Name, Inputs: []string{pool[i], pool[j], pool[k]}}); cls != "" {
-							r.ev.Excluded("C01:" + cls)
-							continue
-						}
 						kc := known.Case{Check: "convex", Eco: e.Name, Inputs: []string{ri.Text, pool[i], pool[j], pool[k]}}
 						if r.check(rt, kc) && vs[i].Compare(vs[j]) < 0 && vs[j].Compare(vs[k]) < 0 {
 							r.ev.NonTrivial(e.Name+"/convex/"+ri.Kind, func() any { return kc.Inputs }, kc.Key()...)
